@@ -44,6 +44,18 @@ def handle (j : Json) : Json :=
     match (do pure ((← dCtx (fld j "ctx")), (← dSrc (fld j "src"))) : D (Ctx × Src)) with
     | .ok (c, s) => respondDoc j (renderSrc c s)
     | .error e => Json.mkObj [("bad", Json.str e)]
+  | .ok "tbleq" =>
+    match (do pure ((← dTbl (fld j "a")), (← dTbl (fld j "b"))) : D (Tbl × Tbl)) with
+    | .ok (a, b) => Json.mkObj [("eq", Json.bool (a.beq b)), ("hash_eq", Json.bool (a.hashKey == b.hashKey)),
+                                ("hash_a", Json.str (strOf a.hashKey))]
+    | .error e => Json.mkObj [("bad", Json.str e)]
+  | .ok "scheq" =>
+    match (do pure ((← (← fArr j "a").mapM jStr), (← (← fArr j "b").mapM jStr)) : D (List Str × List Str)) with
+    | .ok (a, b) =>
+      (match schOfChain a, schOfChain b with
+       | some x, some y => Json.mkObj [("eq", Json.bool (x.beq y)), ("hash_eq", Json.bool (x.hashKey == y.hashKey))]
+       | _, _ => Json.mkObj [("bad", Json.str "empty schema chain")])
+    | .error e => Json.mkObj [("bad", Json.str e)]
   | .ok op => Json.mkObj [("bad", Json.str s!"unknown op {op}")]
   | .error e => Json.mkObj [("bad", Json.str e)]
 
